@@ -116,6 +116,42 @@ def translate(reqs, metatypes=None, procs=None, deadline=10):
     return {json.loads(key): v for key, v in res.items()}
 
 
+def run_batch(args, reqs, procs=8, chunk=100):
+    """feed reqs (dicts with id) to a harness sub-command; a watchdog exit or crash is attributed to the first unanswered
+    request ({"timeout": True} / {"crash": rc}) and the rest is resumed in a fresh process. Returns {id: response}"""
+    def work(part):
+        out, todo = {}, list(part)
+        while todo:
+            data = "".join(json.dumps(r) + "\n" for r in todo)
+            p = subprocess.run(args, input=data, stdout=subprocess.PIPE, stderr=subprocess.PIPE, text=True)
+            n = 0
+            stopped = False
+            for line in p.stdout.split("\n"):
+                if not line.strip():
+                    continue
+                d = json.loads(line)
+                if d.get("timeout"):
+                    out[json.dumps(todo[n]["id"])] = d
+                    stopped = True
+                    break
+                out[json.dumps(d["id"])] = d
+                n += 1
+            if stopped:
+                todo = todo[n + 1:]
+            elif n < len(todo):
+                out[json.dumps(todo[n]["id"])] = {"crash": p.returncode, "stderr": p.stderr[-300:]}
+                todo = todo[n + 1:]
+            else:
+                todo = []
+        return out
+    k = max(1, min(procs, (len(reqs) + chunk - 1) // chunk))
+    res = {}
+    with ThreadPoolExecutor(k) as ex:
+        for part in ex.map(work, [reqs[i::k] for i in range(k)]):
+            res.update(part)
+    return {json.loads(key): v for key, v in res.items()}
+
+
 # ---------------------------------------------------------------------------------------------
 # TLC
 
